@@ -71,7 +71,7 @@ def gen_text_cases(ctx):
     if ctx.tier == 'quick':
         full, sampled, nsample = 4, 5, 2600
     else:
-        full, sampled, nsample = 6, 7, 40000
+        full, sampled, nsample = 6, 7, 30000
     texts = [''.join(t) for n in range(full + 1) for t in itertools.product(ALPHA, repeat=n)]
     for t in texts:
         for c in cfgs:
